@@ -338,7 +338,7 @@ var _ = sim.NewEnv
 
 func init() {
 	register(&Prop{
-		ID: "C12", Run: runC12, RunTimeout: 20, Quick: 1500, Thorough: 30000, Level: "exploration",
+		ID: "C12", Run: runC12, Race: true, RunTimeout: 20, Quick: 1500, Thorough: 30000, Level: "exploration",
 		Rule:        "one run = drawn network, fork tree (1 run in 8 with a 90-230 block stretch beyond the 100-block request split and the exponential history sample) made dominant, 2-5 real nodes (syncer + gateway + mux + manager) each started on its own branch or interior block, a drawn topology (line, star, ring, clique) and connection order, drawn sync interval / discovery interval / MaxSendBlocks / peer limits, per-connection latency and jitter from a seeded PRNG, and for 2 runs in 3 a phase of partitions, heals and connection resets; 1 run in 3 (when the heaviest chain reaches above the require height) adds 1-2 nodes started from a v2 checkpoint on it (chain.NewDBStoreAtCheckpoint), attached to a drawn full node; 1 run in 4 instead keeps the drawn topology static (no peer discovery, no faults) so that nodes not connected to the source depend on the relays; after the last fault every node must, within 45 simulated minutes, sit on the unique sufficiently-heaviest valid chain; in half of the runs above the require height a drawn node then extends the chain by 1-4 blocks and announces the tip (header only / header then outline / outline only) and all nodes must reach it within the same bound, and the C01 audit must hold on every node at every poll; distinct = (regime, topology, size, fault kinds); all completed runs are non-trivial",
 		Real:        []string{"syncer.Syncer (accept/peer/sync loops, parallel sync, relays)", "go.sia.tech/core/gateway + go.sia.tech/mux (real handshake, encryption, framing)", "chain.Manager + chain.DBStore per node"},
 		Stub:        []string{"network: simnet in-memory TCP (seeded per-connection delays, partitions, resets)", "peer store: harness peerStore with real bans", "disk: simdisk.DB"},
